@@ -538,6 +538,20 @@ fn c10_step(rng: &mut Rng, tc: &TxCtx, tag: &str, mut_repo: &mut MutableRepo, da
             } else {
                 pick_parents(rng, &visible, 3)
             };
+            let mut parents = parents;
+            // A hidden commit (abandoned or rewritten earlier) as one of the
+            // parents: it becomes visible again below the new head.
+            if !hidden.is_empty() && rng.chance(1, 5) {
+                let h = *rng.pick(&hidden);
+                if !parents.contains(&h) {
+                    if parents.len() >= 3 {
+                        parents.pop();
+                    }
+                    parents.insert(rng.below(parents.len() + 1), h);
+                    parents.retain(|p| *p != 0);
+                    tc.counts.add("steps.new_commit_on_hidden_parent");
+                }
+            }
             let desc = if rng.chance(1, 4) { String::new() } else { format!("d{}", tc.next_serial()) };
             let all_heads = parents.iter().all(|p| heads.contains(p));
             let i = add_commit(mut_repo, dag, &parents, None, None, &desc);
